@@ -514,12 +514,14 @@ def env_family(seed, n, maxlen=3, budget=6000):
         others = [rnd.choice([sw("o1", "-o"), ar("o1", "opt", "int", "-o", env="BPAF_VERIF_W"), rf("o1", "count", "-o")])]
         named = [it] + others if rnd.random() < 0.6 else others + [it]
         shape = len(out) % 3
+        # fallback_to_usage speaks only when the empty line FAILS: a variable that satisfies the parser keeps it quiet
+        ftu = len(out) % 5 in (1, 3)
         if shape == 0:
-            lvl = level(named, NOTAIL)
+            lvl = level(named, NOTAIL, ftu=ftu)
         elif shape == 1:
-            lvl = level(named, postail(pos("p0", "opt")))
+            lvl = level(named, postail(pos("p0", "opt")), ftu=ftu)
         else:
-            lvl = level([sw("t", "-t")], cmdtail([cmd("one", level(named, NOTAIL))], optional=True))
+            lvl = level([sw("t", "-t")], cmdtail([cmd("one", level(named, NOTAIL, ftu=ftu))], optional=True))
         d = mkdef(f"env{seed}_{len(out)}", lvl, maxlen=maxlen, extras=("unk",), spells=("sep", "eq"),
                   words=("1", "x"), envvals=("UNSET", "1", "x", "2", "%FF"))
         trim_to_budget(d, budget)
